@@ -19,7 +19,8 @@ RULE = ('Hypothesis-generated base scripts: a non-decreasing sequence of clock r
         'listener, 1-3 start() calls of the same loop object (each ended by the clock raising Quit after its '
         'iteration budget), plus 0-2 generated faults. Each base script is executed as generated and then once '
         'for EVERY (iteration, processor position, action) with action in {raise Quit, quit_loop(world), '
-        'quit_loop() through desper.default_loop, switch(), raise SwitchWorld, raise RuntimeError}. Oracle = '
+        'quit_loop() through desper.default_loop, switch(), raise SwitchWorld (plain, clear_next, clear_current; '
+        'targets never loaded before, cached or cleared), raise RuntimeError}. Oracle = '
         'model of the clock: dt is 0 for the first iteration after each start() and the exact difference of '
         'consecutive readings otherwise (also across switches), same dt for all processors of a frame, '
         'processors after the faulting one do not run, Quit/quit_loop make start() return with running False and '
@@ -31,11 +32,12 @@ ASSUMPTIONS = [
     'clock readings are multiples of 1/8 below 2**10: differences are exact in binary floating point',
     'quit_loop is given the current world or nothing (a left, disabled world would legitimately postpone '
     'on_quit)',
-    'no clear_current/clear_next flags here (C13)',
+    'clear flags only through raise SwitchWorld (their event semantics are C13\'s subject)',
     'Loop.running after a propagated non-Quit exception is not specified by the property and not checked',
 ]
 FINDINGS = {}
-ACTIONS = ['quit', 'quit_loop_w', 'quit_loop_default', 'switch', 'raise_switch', 'error']
+ACTIONS = ['quit', 'quit_loop_w', 'quit_loop_default', 'switch', 'raise_switch', 'error', 'raise_switch_clear_next',
+           'raise_switch_clear_current']
 
 
 class Boom(RuntimeError):
@@ -43,7 +45,7 @@ class Boom(RuntimeError):
 
 
 def decode_fault(p):
-    return [p % 16, p // 16 % 4, p // 64 % 6, p // 384 % 3]
+    return [p % 16, p // 16 % 4, p // 64 % 8, p // 512 % 3]
 
 
 def strategy():
@@ -52,7 +54,7 @@ def strategy():
         'segments': st.lists(st.integers(1, 5), min_size=1, max_size=3),
         'gaps': st.lists(st.integers(0, 16).map(lambda k: k / 8), min_size=15, max_size=15),
         'start': st.integers(0, 80).map(lambda k: k / 8),
-        'faults': st.lists(st.integers(0, 16 * 4 * 6 * 3 - 1).map(decode_fault), max_size=2)})
+        'faults': st.lists(st.integers(0, 16 * 4 * 8 * 3 - 1).map(decode_fault), max_size=2)})
 
 
 class Proc(desper.Processor):
@@ -185,14 +187,13 @@ class Execution:
             self.end_reason = 'error'
             self.raised = Boom('injected')
             raise self.raised
-        # world switches
-        self.instances[target] = self.handles[target]()
+        # world switches: the target is NOT loaded by the harness (a never loaded or cleared handle is loaded by
+        # the library on the way); which instance runs is learnt when the loop has switched
         self.next_cur = target
         if action == 'switch':
-            self.pending_switch = True
             desper.switch(self.handles[target], from_world=proc.world if f[0] % 2 else None)
-        self.pending_switch = True
-        raise desper.SwitchWorld(self.handles[target])
+        raise desper.SwitchWorld(self.handles[target], clear_next=(action == 'raise_switch_clear_next'),
+                                 clear_current=(action == 'raise_switch_clear_current'))
 
     def run(self):
         case = self.case
@@ -219,6 +220,7 @@ class Execution:
                     r = orig_switch(handle, *a, **k)
                     if self.next_cur is not None:
                         self.cur, self.next_cur = self.next_cur, None
+                    self.instances[self.cur] = self.loop.current_world
                     return r
                 self.loop.switch = tracking_switch
                 try:
@@ -274,7 +276,7 @@ def run_case(case):
     for g in range(iterations):
         for pos in range(maxprocs):
             for a in range(len(ACTIONS)):
-                for target in range(len(case['worlds'])) if ACTIONS[a] in ('switch', 'raise_switch') else (0,):
+                for target in range(len(case['worlds'])) if 'switch' in ACTIONS[a] else (0,):
                     Execution(case, [[g, pos, a, target]]).run()
                     execs += 1
     nontrivial = (iterations >= 3 and len(base.deltas) >= 2 and maxprocs >= 2) or base.flags['restart']
